@@ -286,10 +286,28 @@ func (pip *InParamPort) SetProcess(p WorkflowProcess) {
 
 // AddRemotePort adds a remote OutParamPort to the InParamPort
 func (pip *InParamPort) AddRemotePort(pop *OutParamPort) {
+	// The feeder go-routine of an earlier FromStr/FromInt/FromFloat on this
+	// port may be closing its connection (see CloseConnection) at any time
+	pip.closeLock.Lock()
+	defer pip.closeLock.Unlock()
 	if pip.RemotePorts[pop.Name()] != nil {
 		pip.Failf("A remote param port with name (%s) already exists", pop.Name())
 	}
 	pip.RemotePorts[pop.Name()] = pop
+}
+
+// connectedOutParamPorts returns the remote ports that are connected right
+// now. The feeder go-routines started by FromStr/FromInt/FromFloat remove
+// themselves from RemotePorts as soon as they have sent all their values, which
+// can be while the workflow is still being wired up or traversed
+func (pip *InParamPort) connectedOutParamPorts() []*OutParamPort {
+	pip.closeLock.Lock()
+	defer pip.closeLock.Unlock()
+	pops := []*OutParamPort{}
+	for _, pop := range pip.RemotePorts {
+		pops = append(pops, pop)
+	}
+	return pops
 }
 
 // From connects one parameter port with another one
